@@ -66,18 +66,19 @@ Theorem C12_decode_text : forall d o t, wf_defn d -> gen d o = Built t ->
   decode_text t tv = Some (g_z (r_owner r)).
 Proof. exact decode_trait_text. Qed.
 
-(* and the readings ARE tried, per family of the trait type: integer kinds (int64 / uint64
-   readings, converted to the trait type), string kinds, self-unmarshaling types *)
+(* and the readings ARE tried, per family of the trait type: integer kinds (the int64 / uint64
+   reading z when it fits the trait's type: conv_int … z = z — always the case for the value of a
+   cell of that type), string kinds, self-unmarshaling types *)
 Theorem C12_decode_json_int : forall d o t, wf_defn d -> gen d o = Built t ->
   forall c r, In c (t_cols t) -> col_parsable c = true -> In r (col_rows c) ->
   forall jv z, col_kind c = KInt64 -> ti_json_own (col_info c) = false ->
-  cl_val (r_cell r) = typed_int c z -> jv_i64 jv = Some z ->
+  cl_val (r_cell r) = typed_int c z -> conv_int (col_bkind c) z = z -> jv_i64 jv = Some z ->
   unambiguous t (json_attempts t jv) (g_z (r_owner r)) -> decode_json t jv = Some (g_z (r_owner r)).
 Proof. exact json_int. Qed.
 Theorem C12_decode_json_uint : forall d o t, wf_defn d -> gen d o = Built t ->
   forall c r, In c (t_cols t) -> col_parsable c = true -> In r (col_rows c) ->
   forall jv z, col_kind c = KUint64 -> ti_json_own (col_info c) = false ->
-  cl_val (r_cell r) = typed_int c z -> jv_u64 jv = Some z ->
+  cl_val (r_cell r) = typed_int c z -> conv_int (col_bkind c) z = z -> jv_u64 jv = Some z ->
   unambiguous t (json_attempts t jv) (g_z (r_owner r)) -> decode_json t jv = Some (g_z (r_owner r)).
 Proof. exact json_uint. Qed.
 Theorem C12_decode_json_string : forall d o t, wf_defn d -> gen d o = Built t ->
@@ -100,13 +101,13 @@ Proof. exact json_native. Qed.
 Theorem C12_decode_yaml_int : forall d o t, wf_defn d -> gen d o = Built t ->
   forall c r, In c (t_cols t) -> col_parsable c = true -> In r (col_rows c) ->
   forall yv z, col_kind c = KInt64 -> ti_yaml_own (col_info c) = false ->
-  cl_val (r_cell r) = typed_int c z -> yv_i64 yv = Some z ->
+  cl_val (r_cell r) = typed_int c z -> conv_int (col_bkind c) z = z -> yv_i64 yv = Some z ->
   unambiguous t (yaml_attempts_gen true t yv) (g_z (r_owner r)) -> decode_yaml t yv = Some (g_z (r_owner r)).
 Proof. exact yaml_int. Qed.
 Theorem C12_decode_yaml_uint : forall d o t, wf_defn d -> gen d o = Built t ->
   forall c r, In c (t_cols t) -> col_parsable c = true -> In r (col_rows c) ->
   forall yv z, col_kind c = KUint64 -> ti_yaml_own (col_info c) = false ->
-  cl_val (r_cell r) = typed_int c z -> yv_u64 yv = Some z ->
+  cl_val (r_cell r) = typed_int c z -> conv_int (col_bkind c) z = z -> yv_u64 yv = Some z ->
   unambiguous t (yaml_attempts_gen true t yv) (g_z (r_owner r)) -> decode_yaml t yv = Some (g_z (r_owner r)).
 Proof. exact yaml_uint. Qed.
 Theorem C12_decode_yaml_string : forall d o t, wf_defn d -> gen d o = Built t ->
@@ -175,6 +176,12 @@ Theorem C12_native_variable_orig_refuted :
   is_builderr (gen_orig w_v0 (opts_with ["First"; "Second"])) = true
   /\ is_built (gen w_v0 (opts_with ["First"; "Second"])) = true.
 Proof. exact v0_orig. Qed.
+Theorem C12_equal_cells_orig_refuted :
+  is_builderr (gen_orig w_equal (opts_with ["Wa"; "Wb"])) = true
+  /\ exists t, gen w_equal (opts_with ["Wa"; "Wb"]) = Built t
+               /\ sem_parse t {| dty := "int"; dval := PInt 10 |} = Some 0
+               /\ sem_parse t {| dty := "int"; dval := PInt 12 |} = Some 1.
+Proof. exact equal_cells_orig. Qed.
 Theorem C12_untyped_rune_orig_refuted :
   extract_underlying_orig BUntypedRune = KUnknown /\ extract_underlying BUntypedRune = KInt64.
 Proof. exact rune_orig. Qed.
@@ -217,4 +224,5 @@ Print Assumptions C12_duplicate_case_orig_refuted.
 Print Assumptions C12_row_index_orig_refuted.
 Print Assumptions C12_row_index2_orig_refuted.
 Print Assumptions C12_native_variable_orig_refuted.
+Print Assumptions C12_equal_cells_orig_refuted.
 Print Assumptions C12_untyped_rune_orig_refuted.
